@@ -11,6 +11,11 @@ from typing import Any, Dict, List, Optional
 VERIF = os.path.dirname(os.path.dirname(os.path.abspath(__file__)))
 
 
+def evidence_dir() -> str:
+    """evidence/ of /verif; selftests redirect it with VERIF_EVIDENCE_DIR so they never touch committed evidence."""
+    return os.environ.get("VERIF_EVIDENCE_DIR") or os.path.join(VERIF, "evidence")
+
+
 @dataclass
 class Obligation:
     rule: str
@@ -105,13 +110,14 @@ class Check:
                     lines.append(f"KNOWN-FINDING: property={self.pid} {k['what']}")
         viol = [o for o in self.obligations if o.status == "violation"]
         errs = [o for o in self.obligations if o.status == "error"]
-        os.makedirs(os.path.join(VERIF, "evidence", "replay"), exist_ok=True)
-        for n in os.listdir(os.path.join(VERIF, "evidence", "replay")):
+        ev_dir = evidence_dir()
+        os.makedirs(os.path.join(ev_dir, "replay"), exist_ok=True)
+        for n in os.listdir(os.path.join(ev_dir, "replay")):
             if n.startswith(self.pid + "-"):
-                os.remove(os.path.join(VERIF, "evidence", "replay", n))
+                os.remove(os.path.join(ev_dir, "replay", n))
         for i, o in enumerate(viol):
             path = os.path.join("evidence", "replay", f"{self.pid}-{i}.json")
-            with open(os.path.join(VERIF, path), "w") as f:
+            with open(os.path.join(ev_dir, "replay", f"{self.pid}-{i}.json"), "w") as f:
                 json.dump({"property": self.pid, **o.as_json()}, f, indent=1)
             lines.append(f"VIOLATION property={self.pid} replay={path}")
             lines.append(f"  rule={o.rule} at {o.site}: {o.detail}")
@@ -174,7 +180,7 @@ class Check:
             "wall_s": round(time.time() - self.t0, 3),
             "violations": len(viol),
         }
-        with open(os.path.join(VERIF, "evidence", f"{self.pid}.json"), "w") as f:
+        with open(os.path.join(evidence_dir(), f"{self.pid}.json"), "w") as f:
             json.dump(ev, f, indent=1)
             f.write("\n")
 
